@@ -521,6 +521,10 @@ func TestC26InProc(t *testing.T) {
 	crashyNotRun := false
 
 	for _, e := range sel {
+		if only := os.Getenv("C26_ONLY"); only != "" && !strings.HasPrefix(e.Name, only) {
+			continue // development aid: restrict to one function
+		}
+
 		tpls := templatesFor(e)
 		if len(tpls) == 0 {
 			r.Inconcl("enumerated function " + e.Name + " (" + e.Why + ") has parameters the generic template cannot build; it was not exercised")
